@@ -130,6 +130,9 @@ class Run(RunBase):
             return True
         if k == "swap":
             return self.shadow is not None
+        if k == "shrink":
+            have = {la.lanelet_id for la in self.sc.lanelet_network.lanelets}
+            return 0 < len(op["ids"]) == len(set(op["ids"])) < len(have) and set(op["ids"]) <= have
         if k == "grow":
             ids = [la["id"] for la in self.late if la["id"] in op["ids"]]
             return len(ids) == len(op["ids"]) == len(set(op["ids"])) > 0 and not (set(ids) & self.grown) and \
@@ -418,17 +421,45 @@ class Run(RunBase):
             raise Violation(f"C07/lanelets-not-taken-over/<-{self.last}",
                             f"lanelets {sorted(set(op['ids']) - have)} are not in the network after add_objects")
         self.grown |= set(op["ids"])
-        self.stash.clear()  # objects removed earlier carry assignments against the smaller map
+        self._reassign_all()
+        return "ok"
+
+    def _reassign_all(self):
+        self.stash.clear()  # objects removed earlier carry assignments against the other map
         todo = sorted(i for i, k in self.contained.items() if k in ("static", "dynamic"))
         if todo:
             try:
                 self.sc.assign_obstacles_to_lanelets(obstacle_ids=set(todo))
             except Exception as e:  # noqa
-                raise Violation(f"C07/assign-raised[grow]/<-{self.last}",
+                raise Violation(f"C07/assign-raised[map-changed]/<-{self.last}",
                                 f"assign_obstacles_to_lanelets({todo}) raised {type(e).__name__}: {str(e)[:200]}")
             for i in todo:
                 self.assigned[i] = True
-        return "ok"
+
+    def _op_shrink(self, op):
+        """Lanelets leave the map through Scenario.remove_lanelet with a list that contains a lanelet the scenario does
+        not know: the call fails half-way (reported as before).  Then the obstacles are assigned again: the lanelets
+        that went must not be assigned to any more, those that stayed count as before."""
+        ids = op["ids"]
+        net = self.sc.lanelet_network
+        objs = [net.find_lanelet_by_id(i) for i in ids]
+        if any(o is None for o in objs):
+            raise HarnessError("lanelet to remove is not in the network")
+        intruder = build.build_lanelet({"id": 9000 + op.get("n", 0), "left": [[900, 1], [910, 1]],
+                                        "center": [[900, 0], [910, 0]], "right": [[900, -1], [910, -1]]})
+        objs.insert(op["pos"] % (len(objs) + 1), intruder)
+        self.last = "shrink[list with a foreign lanelet]+assign"
+        self.faults["F-midbatch"] += 1
+        try:
+            self.sc.remove_lanelet(objs)
+            raised = None
+        except Exception as e:  # noqa
+            raised = type(e).__name__
+        gone = [i for i in ids if net.find_lanelet_by_id(i) is None]
+        if raised and gone:
+            self.probe("map-shrunk:list-removal-interrupted")
+        self._reassign_all()
+        return {"raised": raised, "gone": gone}
 
     def universe_shape_kind(self, oid):
         for s in self.pool.values():
@@ -525,6 +556,19 @@ def _assigner(rng, run, cfg):
         yield op if run.enabled(op) else None
 
 
+def _shrinker(rng, run, cfg):
+    n = 0
+    while True:
+        have = sorted(la.lanelet_id for la in run.sc.lanelet_network.lanelets)
+        if len(have) < 2 or not rng.chance(0.4):
+            yield None
+            continue
+        n += 1
+        op = {"op": "shrink", "ids": rng.sample(have, rng.randint(1, min(2, len(have) - 1))), "pos": rng.randrange(3),
+              "n": n}
+        yield op if run.enabled(op) else None
+
+
 def _grower(rng, run, cfg):
     while True:
         free = sorted(la["id"] for la in run.late if la["id"] not in run.grown)
@@ -581,7 +625,8 @@ class C07(Property):
                        "set-based-bystander-present", "center-on-lanelet-the-shape-does-not-touch",
                        "second-scenario-with-other-lanelet-ids",
                        "pre-assigned-obstacle-added", "footprint-exactly-tangent-to-a-lanelet",
-                       "network-grown:single", "network-grown:list", "network-grown:list+refused"]
+                       "network-grown:single", "network-grown:list", "network-grown:list+refused",
+                       "map-shrunk:list-removal-interrupted"]
     assumptions = [
         "geometric truth comes from crkit.geom with its don't-care band; the footprint at a time step is read from the "
         "parameters of occupancy_at_time(t).shape (whether that occupancy is the right placement is C04)",
@@ -594,7 +639,7 @@ class C07(Property):
 
     def gen_config(self, rng):
         return {"steps": rng.randint(5, 20), "p_time_steps": rng.pick([0.0, 0.3, 0.6]),
-                "relabelled_twin": rng.chance(0.3), "restart_kinds": sorted(rng.subset(RESTARTS, 0.5, at_least=1)),
+                "relabelled_twin": rng.chance(0.3), "shrinks": rng.chance(0.25), "restart_kinds": sorted(rng.subset(RESTARTS, 0.5, at_least=1)),
                 "restarts": rng.chance(0.6), "clients": sorted(rng.subset(["adder", "assigner", "remover", "readder"],
                                                                           0.85, at_least=2))}
 
@@ -690,6 +735,8 @@ class C07(Property):
             out.append(Client("restarter", 0.8, _restarter(rng.sub("r"), run, cfg)))
         if run.late:
             out.append(Client("grower", 1.0, _grower(rng.sub("g"), run, cfg)))
+        if cfg.get("shrinks"):
+            out.append(Client("shrinker", 0.5, _shrinker(rng.sub("s"), run, cfg)))
         return out
 
     def prune_universe(self, universe, trace):
